@@ -86,8 +86,14 @@ func genC07(t *rapid.T, w *world.World) caseC07 {
 		tr.RawData = []byte(pick(t, "json", []string{`{}`, `null`, `[]`, `{"denom":"x"}`, `{"receiver":1}`, `{"denom":"uusdc","amount":"1","sender":"a","receiver":"b"}`, `"` + world.OrbiterAddr.String() + `"`}))
 	}
 	if kit.Chance(t, "ids", 15) {
-		v := pick(t, "srcchan", []string{"channel-0", "channel-123", "channel-7"})
+		v := pick(t, "srcchan", []string{"channel-0", "channel-123", "channel-7", "channel-4294967296"})
 		tr.SrcChannel = &v
+	}
+	if kit.Chance(t, "dstchan", 20) {
+		// any valid Noble-side channel identifier, not only the four the harness funds: the
+		// sequence is a 64-bit number
+		v := pick(t, "dstchanv", []string{"channel-4", "channel-100", "channel-4294967295", "channel-4294967296", "channel-9223372036854775808", "channel-18446744073709551615"})
+		tr.DstChannel = &v
 	}
 	if kit.Chance(t, "port", 10) {
 		v := pick(t, "srcport", []string{"transfer", "icahost", "wasm.contract"})
